@@ -13,6 +13,8 @@ from gscrib.writers import SerialWriter, SocketWriter
 
 PROP = "C18"
 LEVEL = "exploration"
+TECHNIQUE = 'generator-side expected readings vs get_parameter after every report delivered through the installed receive callback'
+LEVEL_TEXT = 'Held on Marlin/Grbl report families with random signed decimals, field orders, framing and sequences.'
 RULE = ("sequences of 3-12 reports per case drawn from: Marlin M114 position reports (with Count block), "
         "Marlin temperature reports (with/without leading 'ok', with '/target', '@' fields), Grbl status "
         "reports (MPos or WPos, FS or F, fields shuffled, extra Bf/Ln/Pn/Ov/WCO fields), Grbl [PRB:...] "
